@@ -3,6 +3,7 @@ package doubles
 import (
 	"fmt"
 	"sync"
+	"verif/shim/core"
 
 	"github.com/ipfs/go-cid"
 	"github.com/ipld/go-ipld-prime/datamodel"
@@ -32,6 +33,10 @@ type RecValidator struct {
 }
 
 func (v *RecValidator) answer(c VCall) (datatransfer.ValidationResult, error) {
+	// scheduling points around the application's validator (no-ops unless a scheduler with a matching filter is
+	// installed): the library calls it without holding its own locks, so other operations may run meanwhile
+	core.Point("stmt", "validator:"+c.Kind)
+	defer core.Point("stmt", "validator:return")
 	v.mu.Lock()
 	n := len(v.Calls)
 	c.Seq = NextSeq()
